@@ -636,11 +636,8 @@ def run(ctx):
                "fields >= 2^20 on a short body, RSA leading zeros, non-minimal mpints) are not 'altered signatures'")
     ctx.build()
     table_check(ctx, "before")
-    text_stream(ctx)
-    toy_stream(ctx)
-    witness_replay(ctx)
-    real_stream(ctx)
-    history_stream(ctx)
+    for stream in (text_stream, toy_stream, witness_replay, real_stream, history_stream):
+        lk.guarded(ctx, stream)
     table_check(ctx, "after")
 
 
